@@ -4,6 +4,7 @@ use crate::exec::Violation;
 use crate::gen;
 use crate::hook::{kind_name, LineMap};
 use crate::ops::*;
+use crate::mtscen::{self, MtFlavour, MtOut, MtSpec};
 use crate::st::{self, CaseOut, CaseSpec};
 use crate::RunSummary;
 use serde_json::{json, Value};
@@ -36,6 +37,55 @@ fn real_vs_stub() -> Value {
 }
 
 const ST_PROPS: [&str; 10] = ["C01", "C03", "C04", "C05", "C08", "C10", "C13", "C16", "C17", "C20"];
+const MT_PROPS: [&str; 4] = ["C02", "C07", "C12", "C13"];
+
+fn mt_flavour(prop: &str) -> MtFlavour {
+    match prop {
+        "C02" => MtFlavour::Safety,
+        "C07" => MtFlavour::Liveness,
+        "C12" => MtFlavour::Hb,
+        _ => MtFlavour::Lifecycle,
+    }
+}
+
+fn summarise_mt(prop: &str, spec: &MtSpec, out: &MtOut) -> RunSummary {
+    let mut faults = BTreeMap::new();
+    faults.insert("spurious_cas".to_string(), out.spurious_fired);
+    faults.insert("context_switch".to_string(), out.switches);
+    faults.insert("busy_wait_park".to_string(), out.parks);
+    faults.insert("confirmation_phase".to_string(), out.confirms);
+    faults.insert("teardown_in_simulation".to_string(), out.teardowns);
+    faults.insert(format!("strategy_{}", spec.strategy.name()), 1);
+    let mut probes = BTreeMap::new();
+    for (k, v) in &out.probes {
+        probes.insert(probe_name(k), *v);
+    }
+    let cas_fail = out.probes.iter().any(|(k, v)| (k.1 == 2 || k.1 == 3) && k.2 == 0 && *v > 0);
+    let nontrivial = match prop {
+        "C02" | "C07" => out.overlapped || cas_fail,
+        "C12" => out.hb_checks > 4 && out.switches >= 2,
+        _ => out.switches >= 2,
+    } && !out.setup_failed;
+    let mut viols = out.viols.clone();
+    for v in viols.iter_mut() {
+        // MT signatures carry the bracketed tag
+        let sig = crate::mtscen::mt_signature(v);
+        v.class = Box::leak(sig.splitn(2, '|').nth(1).unwrap_or("").to_string().into_boxed_str());
+    }
+    RunSummary {
+        viols,
+        nontrivial,
+        hash: out.trace_hash,
+        state_hash: out.trace_hash ^ (out.end_nodes as u64),
+        steps: out.steps,
+        ops: out.ops_done as u64,
+        faults,
+        probes,
+        sample: Some(json!({"cfg": spec.cfg.to_json(), "threads": spec.programs.len(), "strategy": spec.strategy.name(),
+            "programs": spec.programs.iter().map(|p| p.iter().take(8).map(|o| o.to_json()).collect::<Vec<_>>()).collect::<Vec<_>>(),
+            "schedule_rle_prefix": out.schedule.iter().take(24).map(|(t, n)| json!([t, n])).collect::<Vec<_>>(), "steps": out.steps})),
+    }
+}
 
 pub fn plan(prop: &str, tier: &str) -> Option<Plan> {
     let quick = tier == "quick";
@@ -64,6 +114,9 @@ pub fn plan(prop: &str, tier: &str) -> Option<Plan> {
         "C16" => base(200_000, 3_000_000, "configuration sweep (reserved 0..=4096 x unify x backend x flavour x capacities around the prefix) plus histories on the three backends side by side; see coverage.extra for the sweep. Non-trivial histories = at least 4 allocations and one release; distinct by abstract state sequence hash"),
         "C17" => base(240_000, 4_000_000, "histories with rewind(pos) at arbitrary points, pos boundary-dense over u32 / i64; cursor vs i128 reference clamp, nothing else changes; clear() checked in place and (differentially) against a fresh arena. Non-trivial = at least one rewind whose raw target fell outside [data_offset, capacity] and one inside; distinct by abstract state sequence hash"),
         "C20" => base(240_000, 4_000_000, "histories with discard_freelist / increase_discarded / set_minimum_segment_size anywhere; per-step accounting from (discarded, snapshot) before/after, discarded ranges never handed out again. Non-trivial = discard_freelist on a list with >= 2 segments and at least one too-small release; distinct by abstract state sequence hash"),
+        "C02" => base(60_000, 1_500_000, "seeded schedules (random / sticky / PCT / targeted-preemption strategies, spurious weak-CAS failures) of 2..4 threads x 1..12 operations (alloc_bytes / alloc_aligned_bytes / alloc<T> / owned variants / drop / keep-for-ever) on clones of one sync::Arena after a single-threaded set-up that fills the arena and frees a random subset; oracles inside scheduling steps: new range in data area and disjoint from all live ranges, all live bytes equal their shadow after every value-changing access and before every arena zeroing, every intercepted address inside arena/header. Non-trivial = a list operation (slow-path allocation or release) of one thread overlapped in time with one of another thread, or a CAS failed; distinct = distinct hash of the normalised access trace (thread, location, op, outcome)*"),
+        "C07" => base(60_000, 1_500_000, "schedules as C02 (Optimistic / Pessimistic) plus discard_freelist and threads that keep or detach allocations for ever or finish early; busy-wait detector parks a thread after 256 accesses without any value-changing write by anybody; verdicts: all unfinished threads parked and a 4096-step-per-thread round-robin confirmation without change (V1), solo thread > 20000 steps in one call (V2), no call completed in 50000 steps (V3). Non-trivial / distinct as C02"),
+        "C12" => base(40_000, 1_000_000, "schedules as C02 plus programs that clone / drop arena values and move owned buffers between threads (mailbox = release/acquire pair), teardown inside the simulation; FastTrack-style vector clocks with C++20 release sequences built from the Ordering arguments actually passed; plain accesses = owner writes/reads through handles, arena zeroing, unmap/free; oracle: no conflicting plain/plain or plain/atomic accesses unordered by happens-before. Non-trivial = more than 4 conflict checks and >= 2 context switches; distinct by access-trace hash"),
         _ => return None,
     })
 }
@@ -131,6 +184,11 @@ pub fn run_one(prop: &str, seed: u64, run: u64, tier: &str) -> RunSummary {
 }
 
 fn run_one_inner(prop: &str, seed: u64, run: u64, _tier: &str) -> RunSummary {
+    if MT_PROPS.contains(&prop) && (prop != "C13" || run % 2 == 1) {
+        let spec = mtscen::gen_spec(seed, run, mt_flavour(prop));
+        let out = mtscen::run_spec(&spec, false);
+        return summarise_mt(prop, &spec, &out);
+    }
     if ST_PROPS.contains(&prop) {
         let p = gen::profile(prop);
         let (spec, out) = st::run_generated(&p, seed, run);
@@ -140,6 +198,21 @@ fn run_one_inner(prop: &str, seed: u64, run: u64, _tier: &str) -> RunSummary {
 }
 
 pub fn minimise(prop: &str, seed: u64, run: u64, _tier: &str, sig: &str) -> Option<Value> {
+    if MT_PROPS.contains(&prop) && (prop != "C13" || run % 2 == 1) {
+        let spec = mtscen::gen_spec(seed, run, mt_flavour(prop));
+        let out = mtscen::run_spec(&spec, false);
+        let v = out.viols.iter().find(|v| mtscen::mt_signature(v) == sig)?.clone();
+        let frozen = mtscen::freeze(&spec, &out);
+        let min = mtscen::minimise(&frozen, sig, 250);
+        let fin = mtscen::run_spec(&min, true);
+        let v2 = fin.viols.iter().find(|x| mtscen::mt_signature(x) == sig).cloned().unwrap_or(v);
+        return Some(json!({
+            "format": "rsim-replay-1", "scenario": "mt", "property": prop, "seed": seed, "run": run,
+            "spec": min.to_json(), "violation": v2.to_json(), "signature": sig,
+            "trace_tail": fin.events.iter().rev().take(60).rev().cloned().collect::<Vec<_>>(),
+            "original": {"ops": spec.programs.iter().map(|p| p.len()).sum::<usize>(), "setup": spec.setup.len(), "steps": out.steps},
+        }));
+    }
     if ST_PROPS.contains(&prop) {
         let p = gen::profile(prop);
         let (spec, out) = st::run_generated(&p, seed, run);
@@ -158,6 +231,21 @@ pub fn minimise(prop: &str, seed: u64, run: u64, _tier: &str, sig: &str) -> Opti
 
 pub fn replay(j: &Value) -> Vec<Violation> {
     match j["scenario"].as_str().unwrap_or("") {
+        "mt" => {
+            let Some(spec) = MtSpec::from_json(&j["spec"]) else { return vec![] };
+            let out = mtscen::run_spec(&spec, std::env::var("RSIM_TRACE").is_ok());
+            if std::env::var("RSIM_TRACE").is_ok() {
+                for e in &out.events {
+                    eprintln!("{}", e);
+                }
+            }
+            out.viols.iter().map(|v| {
+                let mut v = v.clone();
+                let sig = mtscen::mt_signature(&v);
+                v.class = Box::leak(sig.splitn(2, '|').nth(1).unwrap_or("").to_string().into_boxed_str());
+                v
+            }).collect()
+        }
         "st" => {
             let Some(spec) = CaseSpec::from_json(&j["spec"]) else { return vec![] };
             let Some(ops) = ops_from_json(&j["ops"]) else { return vec![] };
